@@ -18,6 +18,8 @@ struct Ev {
     int fiber;
     uint64_t inv, ret;  // total-order stamps; ret == INF while in progress
     int result;  // bool results; -1 = void / unknown
+    const void* lock;  // last lock this call acquired and its global acquisition number (lock model)
+    uint64_t seq;
 };
 // ghost event log (fixed storage: no arena memory)
 Ev g_ev[32];
@@ -28,12 +30,14 @@ char g_msg[512];
 int begin_op(int kind)
 {
     int i = g_nev++;
-    g_ev[i] = Ev{kind, self(), stamp(), INF, -1};
+    g_ev[i] = Ev{kind, self(), stamp(), INF, -1, nullptr, 0};
     return i;
 }
 void end_op(int i, int result)
 {
     g_ev[i].result = result;
+    g_ev[i].lock = last_lock_acquired();
+    g_ev[i].seq = last_acquire_seq();
     g_ev[i].ret = stamp();
 }
 
@@ -109,6 +113,41 @@ const char* check_all(bool quiescent)
                     snprintf(g_msg, sizeof g_msg,
                              "wait_for (fiber %d) returned false although trigger() had succeeded before it began",
                              w.fiber);
+                    return g_msg;
+                }
+            }
+        }
+        // (3') the waiter re-acquires its mutex before it gives up: if a successful trigger()'s critical
+        // section on that same mutex came before the waiter's last one, the event had happened when it gave up
+        if (w.kind == WAIT_FOR && w.result == 0 && w.ret != INF && w.lock) {
+            for (int e = 0; e < g_nev; e++) {
+                if (!(g_ev[e].kind == TRIGGER && g_ev[e].result == 1 && g_ev[e].ret != INF)) continue;
+                if (g_ev[e].lock != w.lock || !(g_ev[e].seq < w.seq)) continue;
+                bool excused = false;
+                for (int a = 0; a < g_nev; a++)
+                    if (g_ev[a].kind == ACTIVATE && g_ev[a].ret > g_ev[e].inv && g_ev[a].inv < w.ret) excused = true;
+                for (int r = 0; r < g_nev; r++)
+                    if (g_ev[r].kind == RESET && g_ev[r].ret > g_ev[e].inv && g_ev[r].inv < w.ret) excused = true;
+                if (!excused) {
+                    snprintf(g_msg, sizeof g_msg,
+                             "wait_for (fiber %d) returned false although a successful trigger() had completed its critical "
+                             "section before the waiter last held the same mutex (the event had happened when it gave up)",
+                             w.fiber);
+                    return g_msg;
+                }
+            }
+        }
+        if (w.kind == WAIT_FOR_ACT && w.result == 0 && w.ret != INF && w.lock) {
+            for (int a = 0; a < g_nev; a++) {
+                if (!(g_ev[a].kind == ACTIVATE && g_ev[a].result == 1 && g_ev[a].ret != INF)) continue;
+                if (g_ev[a].lock != w.lock || !(g_ev[a].seq < w.seq)) continue;
+                bool excused = false;
+                for (int r = 0; r < g_nev; r++)
+                    if (g_ev[r].kind == RESET && g_ev[r].ret > g_ev[a].inv && g_ev[r].inv < w.ret) excused = true;
+                if (!excused) {
+                    snprintf(g_msg, sizeof g_msg,
+                             "wait_forActivation (fiber %d) returned false although a successful activate() had completed its "
+                             "critical section before the waiter last held the same mutex", w.fiber);
                     return g_msg;
                 }
             }
